@@ -85,8 +85,7 @@ def opOutcross : J.Op := fun j => do
   let ncol ← J.field j "ncol" J.nat
   let x ← J.field j "x" (J.list J.int)
   let orders ← J.field j "orders" (J.list pairs)
-  let cc ← J.fieldD j "c_contiguous" J.bool true
-  ofExcept (J.ofList J.ofInt) (outcrossNd cc nrow ncol x orders)
+  ofExcept (J.ofList J.ofInt) (outcross nrow ncol x orders)
 
 def opSpecOutcross : J.Op := fun j => do
   let nrow ← J.field j "nrow" J.nat
